@@ -95,6 +95,24 @@ def sequential_events(rnd: random.Random, q: bool) -> list:
             pure = cold(calc, lambda: ask(b))
             for m, (r, p) in enumerate(zip(res, pure), 1):
                 evs.append({"op": "ys", "cal": cid, "y": b, "m": m, "d": cal.get_days_in_month(b, m), "res": r, "pure": p, "after": a})
+        # ... for a year next to the one asked first (a cache entry may be derived from its neighbour's: b = a - 1 when a is there
+        # already, b = a + 1), and for the year of the opposite sign with the same cache slot and block number (-548 and 1500)
+        for _ in range(30 if q else 400):
+            a = rnd.randint(cal.min_year + 1, cal.max_year - 1)
+            choices = [a - 1, a + 1, a - 1]
+            if cal.min_year < 0:
+                a = rnd.choice([a, rnd.randint(1024, min(cal.max_year, 4000))])
+                choices += [a - 2048 * (a >> 10)] * 2 if a > 0 else [a - 2048 * (a >> 10)]
+            b = rnd.choice(choices)
+            if not (cal.min_year <= a <= cal.max_year and cal.min_year <= b <= cal.max_year):
+                continue
+            try:
+                res = cold(calc, lambda: (ask(a), ask(b))[1])
+                pure = cold(calc, lambda: ask(b))
+            except Exception:  # noqa: BLE001 - a year the calendar cannot be asked about this way: nothing to compare
+                continue
+            for m, (r, p) in enumerate(zip(res, pure), 1):
+                evs.append({"op": "ys", "cal": cid, "y": b, "m": m, "d": cal.get_days_in_month(b, m), "res": r, "pure": p, "after": a})
     # 2. zone interval caches: instants 512 * 32 days apart on either side of transitions
     tz = DateTimeZoneProviders.tzdb
     for zid in rnd.sample(list(tz.ids), 6 if q else 60):
@@ -234,7 +252,12 @@ def sequential_events(rnd: random.Random, q: bool) -> list:
              ("LocalTime", _LTP, "hh:mm:ss tt", _LT(13, 5, 7)), ("AnnualDate", _ADP, "dd MMMM", _AD(2, 29)),
              ("Offset", _OfP, "+HH:mm", _Of.from_hours_and_minutes(5, 30)), ("Instant", _InP, "yyyy-MM-dd HH:mm:ss", _In.from_utc(2024, 2, 29, 13, 5)),
              ("Duration", _DuP, "-D:hh:mm:ss", _Du.from_seconds(100000)),
-             ("LocalDate std", LocalDatePattern, "D", probe), ("LocalDateTime std", _LDTP, "F", probe.at(_LT(13, 5, 7))), ("LocalTime std", _LTP, "T", _LT(13, 5, 7))]
+             ("LocalDate std", LocalDatePattern, "D", probe), ("LocalDateTime std", _LDTP, "F", probe.at(_LT(13, 5, 7))), ("LocalTime std", _LTP, "T", _LT(13, 5, 7)),
+             # pattern texts that differ only in blanks, case or quoting are different patterns to the per-format-info pattern cache
+             ("LocalTime a", _LTP, "HH:mm", _LT(13, 5, 7)), ("LocalTime b", _LTP, "HH:mm ", _LT(13, 5, 7)), ("LocalTime c", _LTP, " HH:mm", _LT(13, 5, 7)),
+             ("LocalTime d", _LTP, "hh:mm", _LT(13, 5, 7)), ("LocalTime e", _LTP, "HH':'mm", _LT(13, 5, 7)),
+             ("LocalDate a", LocalDatePattern, "yyyy-MM-dd", probe), ("LocalDate b", LocalDatePattern, "yyyy-MM-dd ", probe), ("LocalDate c", LocalDatePattern, "yyyy-MM-DD".lower(), probe),
+             ("LocalDate era", LocalDatePattern, "yyyy gg", probe), ("LocalDate era BCE", LocalDatePattern, "yyyy g", LocalDate(-44, 3, 15))]
     getter = getattr(CultureInfo, "get_culture_info", None)
     for cname in rnd.sample(["en-GB", "fr-FR", "de-AT", "ru-RU", "ja-JP", "pt-BR", "it-CH", "nl-BE", "sv-SE", "el-GR", "tr-TR", "hi-IN", "ko-KR", "es-MX"], 6 if q else 14):
         try:
@@ -385,6 +408,26 @@ def sequential_events(rnd: random.Random, q: bool) -> list:
             setattr(DateTimeZone, attr, saved)
     except Exception as e:  # noqa: BLE001
         evs.append({"op": "fz", "offset": 0, "first_culture": "?", "asker": "?", "id": [], "pure": [], "exc": type(e).__name__, "resolves": False})
+    # 8b. the same in fresh interpreters: whoever touches the process-wide lazily built patterns and zones first - under whatever
+    #     current culture - the questions asked afterwards (under the default culture again) have the same answers
+    try:
+        answers = {}
+        for first in ["", "fi-FI", "da-DK", "ar-SA"]:
+            proc = _sp.run([_sys.executable, "-m", "harness.drivers.fresh_probe"], input=_json.dumps({"first_culture": first}), capture_output=True,
+                           text=True, timeout=300, env=dict(_os.environ))
+            answers[first] = _json.loads(proc.stdout) if proc.returncode == 0 and proc.stdout.strip() else None
+        base = answers.get("")
+        for first, got in answers.items():
+            if first == "" or base is None:
+                continue
+            if got is None:
+                evs.append({"op": "fmt", "culture": "fresh process after " + first, "text": [0], "pure": [1], "exc": "no answer", "fresh_process": True})
+                continue
+            for k, (a, b) in enumerate(zip(got, base)):
+                evs.append({"op": "fmt", "culture": f"question {k} after a first caller under {first}", "text": [ord(ch) for ch in _json.dumps(a)],
+                            "pure": [ord(ch) for ch in _json.dumps(b)], "fresh_process": True})
+    except Exception:  # noqa: BLE001 - no second interpreter: nothing to compare with
+        pass
     # 7. a provider over a source that answers an alias with the canonical zone (the source contract allows it): the zone
     #    object served for an id is still the same one on every lookup, in any order of ids
     class AliasSource:
